@@ -143,7 +143,11 @@ def service_oracle(script, impl):
             if out != 'ok':
                 bad('open', ws, out)
             continue
-        if out == 'blocked' or out == 'not-open':
+        if out == 'blocked' or out == 'not-open' or out == 'skipped':
+            continue
+        if out.startswith('svc=err:apply-blocked'):
+            bad('apply: a replicated entry was not applied within 5 s (the applier waits for something a client holds: a replica must '
+                'keep applying replicated operations while it serves reads)', ws, out)
             continue
         if op == 'readonly':
             ro = ws[1] == 'on'
